@@ -28,6 +28,10 @@ type EngCase struct {
 	// data "hcl_schema" source and the patterns in the env's exclude attribute; 3 file://schema.sql (with a dev database).
 	// The HCL / SQL documents are written by the real `atlas schema inspect` of the reference database.
 	Source int `json:"source,omitempty"`
+	// Layout of the skip policy in the project file: 0 the env's own diff block; 1 a project-level diff block, env without
+	// one; 2 a project-level diff block with the skip policy and an env diff block that holds another setting only
+	// (the layout of the doc comment of Diff.Extend: the env block extends the global one)
+	Layout int `json:"layout,omitempty"`
 }
 
 // toGM reduces the SQLite model to the names the exclusion semantics care about.
@@ -270,11 +274,25 @@ func checkCLI(c EngCase) (ExOutcome, error) {
 		for _, p := range c.Patterns {
 			pats = append(pats, fmt.Sprintf("%q", p.String()))
 		}
-		sb.WriteFile("atlas.hcl", fmt.Sprintf("data \"hcl_schema\" \"app\" {\n  path = \"schema.hcl\"\n}\nenv \"x\" {\n  src = data.hcl_schema.app.url\n  url = %q\n  dev = \"sqlite://dev?mode=memory\"\n  exclude = [%s]\n%s}\n",
-			"sqlite://"+cur, strings.Join(pats, ", "), skipBlock))
+		global, envSkip := "", skipBlock
+		switch {
+		case c.Layout == 1 && skipBlock != "":
+			global, envSkip = strings.ReplaceAll(skipBlock, "\n  ", "\n")[2:], ""
+		case c.Layout == 2 && skipBlock != "":
+			global, envSkip = strings.ReplaceAll(skipBlock, "\n  ", "\n")[2:], "  diff {\n    concurrent_index {\n      create = true\n    }\n  }\n"
+		}
+		sb.WriteFile("atlas.hcl", fmt.Sprintf("%sdata \"hcl_schema\" \"app\" {\n  path = \"schema.hcl\"\n}\nenv \"x\" {\n  src = data.hcl_schema.app.url\n  url = %q\n  dev = \"sqlite://dev?mode=memory\"\n  exclude = [%s]\n%s}\n",
+			global, "sqlite://"+cur, strings.Join(pats, ", "), envSkip))
 		args = []string{"schema", "apply", "--env", "x", "-c", "file://atlas.hcl", "--auto-approve"}
 	case len(c.Skip) > 0:
-		sb.WriteFile("atlas.hcl", "env \"x\" {\n"+skipBlock+"}\n")
+		switch c.Layout {
+		case 1:
+			sb.WriteFile("atlas.hcl", strings.ReplaceAll(skipBlock, "\n  ", "\n")[2:]+"env \"x\" {\n}\n")
+		case 2:
+			sb.WriteFile("atlas.hcl", strings.ReplaceAll(skipBlock, "\n  ", "\n")[2:]+"env \"x\" {\n  diff {\n    concurrent_index {\n      create = true\n    }\n  }\n}\n")
+		default:
+			sb.WriteFile("atlas.hcl", "env \"x\" {\n"+skipBlock+"}\n")
+		}
 		args = append(args, "--env", "x", "-c", "file://atlas.hcl")
 	}
 	r := sb.Run(args...)
